@@ -622,11 +622,12 @@ Definition ex_post (a : N) (amt : option vexpr) (cost : option exchange) : posti
   {| p_account := a; p_amount := amt; p_cost := cost; p_lot := None; p_balance := None |}.
 (* commodity 0 (0 places), commodity 4 (2 places); 0 C0 @ 100 C4; twice 0.4 C0 into account 0 *)
 Definition ex_entries : list entry :=
-  [EFormat 0 0; EFormat 4 2;
-   ETxn {| t_date := 1; t_posts := [ex_post 2 (Some (VAmt 0 (Some 0%N))) (Some (XRate (VAmt (of_dec 100 0) (Some 4%N))));
-                                    ex_post 2 None None] |};
-   ETxn {| t_date := 2; t_posts := [ex_post 0 (Some (VAmt (of_dec 4 1) (Some 0%N))) None; ex_post 2 None None] |};
-   ETxn {| t_date := 3; t_posts := [ex_post 0 (Some (VAmt (of_dec 4 1) (Some 0%N))) None; ex_post 2 None None] |}].
+  [EFormat 0%N 0%nat; EFormat 4%N 2%nat;
+   ETxn {| t_date := 1%Z;
+           t_posts := [ex_post 2%N (Some (VAmt 0 (Some 0%N))) (Some (XRate (VAmt (of_dec 100 0) (Some 4%N))));
+                       ex_post 2%N None None] |};
+   ETxn {| t_date := 2%Z; t_posts := [ex_post 0%N (Some (VAmt (of_dec 4 1) (Some 0%N))) None; ex_post 2%N None None] |};
+   ETxn {| t_date := 3%Z; t_posts := [ex_post 0%N (Some (VAmt (of_dec 4 1) (Some 0%N))) None; ex_post 2%N None None] |}].
 Definition ex_state : bstate := match process ex_entries with (Ok s, _) => s | _ => bstate0 end.
 Definition ex_recs : records := repository (s_events ex_state) [].
 
@@ -636,7 +637,7 @@ Proof. eexists. vm_compute. reflexivity. Qed.
 (* 0.4 + 0.4 at 100 over a date range is 80, not 100 *)
 Example ex_ranged_up_to_date :
   match balance_query 16 choose_max ex_recs ex_state
-                      (Some {| cv_strategy := UpToDate 10; cv_target := 4%N |}) (Some 1%Z) (Some 30%Z) with
+                      (Some {| cv_strategy := UpToDate 10%Z; cv_target := 4%N |}) (Some 1%Z) (Some 30%Z) with
   | COk b => Qc_eq_bool (a_get (bal_get b 0%N) 4%N) (of_dec 80 0)
   | _ => false
   end = true.
@@ -644,7 +645,7 @@ Proof. vm_compute. reflexivity. Qed.
 
 Example ex_missing_rate_fails :
   match balance_query 16 choose_max ex_recs ex_state
-                      (Some {| cv_strategy := UpToDate 0; cv_target := 4%N |}) None None with
+                      (Some {| cv_strategy := UpToDate 0%Z; cv_target := 4%N |}) None None with
   | CErr (RateNotFound c _ _ _) => (c =? 0)%N
   | _ => false
   end = true.
